@@ -218,7 +218,8 @@ def _sp_pre(ctx):
     if tierName not in s["keys"] or not all(snap.wellformed_tier_snap(t) for t in s["tiers"]):
         return SKIP
     tt = s["tiers"][s["keys"].index(tierName)]
-    if tt["t"] != "I" or any(e[-1] == label for e in tt["entries"]):
+    if tt["t"] != "I" or (align and any(e[-1] == label for e in tt["entries"])):
+        # (a label the tier already uses is judged when the insertion point is known exactly, i.e. without zero-crossing alignment)
         REC.skip("splice", "label-not-fresh-or-point-tier")
         return SKIP
     dur = len(sa) / a.frameRate
@@ -261,7 +262,16 @@ def _sp_post(ctx):
         REC.violation(PROP, "splice", "audioSplice", case, "tier names %r, expected %r" % (r["keys"], s["keys"]), sig, mech)
         return
     tt = r["tiers"][r["keys"].index(tierName)]
+    fresh = not any(e[-1] == label for e in s["tiers"][s["keys"].index(tierName)]["entries"])
     new = [e for e in tt["entries"] if e[-1] == label]
+    if not fresh:
+        # the tier already uses this label (a repeated word): the new interval is the one labelled so that starts where the audio went in
+        classes.append("C18:splice:label-already-in-use")
+        new = [e for e in new if abs(e[0] - start) <= 1e-9]
+        if len(new) != 1:
+            REC.violation(PROP, "splice", "audioSplice", case, "%d intervals labelled %r start at the insertion point %r on tier %r, expected exactly one new interval covering the inserted audio: %r" % (
+                len(new), label, start, tierName, tt["entries"]), sig, mech)
+            return
     if len(new) != 1:
         REC.violation(PROP, "splice", "audioSplice", case, "%d intervals labelled %r on tier %r, expected exactly one" % (len(new), label, tierName), sig, mech)
         return
@@ -297,7 +307,7 @@ def _sp_post(ctx):
                 return
         hi = stop if stop is not None else start
         # points exactly on the edge of a replaced region are erased with it (C07: a <= t <= b)
-        later = [e[-1] for e in ts["entries"] if (e[0] >= hi if ts["t"] == "I" else e[0] > hi)] if not align else []
+        later = [e[-1] for e in ts["entries"] if (e[0] >= hi if ts["t"] == "I" else e[0] > hi) and e[-1] != label] if not align else []
         if later:
             got_later = [e[-1] for e in tr["entries"] if e[-1] != label][-len(later):]
             if got_later != later:
@@ -481,7 +491,10 @@ def _workload(tier, rng, shard, nshards, work=None):
                               ("splice-origin",), {"op": "splice-origin"})
             else:
                 REC.held("splice", ("splice-origin", outs[0][0]), None, None)
-        guarded(praatio_scripts.audioSplice, target, seg, tg, "words", "SPLICE", start, stop, rng.random() < 0.5)
+        lab = "SPLICE"
+        if ents and rng.random() < 0.25:
+            lab = rng.choice([e[2] for e in ents if e[2]] or ["SPLICE"])  # a word the tier already holds (said again)
+        guarded(praatio_scripts.audioSplice, target, seg, tg, "words", lab, start, stop, rng.random() < 0.5)
 
 
 def replay(v, work):
